@@ -8,6 +8,7 @@ import (
 	"encoding/binary"
 	"errors"
 	"fmt"
+	"io"
 	"net"
 	"sync"
 	"sync/atomic"
@@ -300,6 +301,272 @@ func vh10Session(t *testing.T, o *vhOut, id int, n int, phases []vh10Phase, sub 
 	omu.Unlock()
 }
 
+// ---- (d) forced schedules: a gated client transport and a raw fake server ----
+
+// vh10Gate is the client's end of the pipe: one Write can be held and then made to fail.
+type vh10Gate struct {
+	net.Conn
+	hold int32
+	gate chan struct{}
+}
+
+func (c *vh10Gate) Write(b []byte) (int, error) {
+	if atomic.CompareAndSwapInt32(&c.hold, 1, 0) {
+		<-c.gate
+		return 0, errors.New("injected write failure")
+	}
+	return c.Conn.Write(b)
+}
+
+// vh10Guard runs f, turning a Go panic in the client into an observation.
+func vh10Guard(f func() error) (out string) {
+	defer func() {
+		if r := recover(); r != nil {
+			out = "panic"
+		}
+	}()
+	if err := f(); err != nil {
+		return "err"
+	}
+	return "ok"
+}
+
+func vh10Handshake(t *testing.T, conn net.Conn, sc net.Conn, reqs chan [2]uint16, headerOnly *int32) (*Client, File) {
+	go func() {
+		for {
+			sc.SetReadDeadline(time.Now().Add(30 * time.Second))
+			var hdr [7]byte
+			if _, err := io.ReadFull(sc, hdr[:]); err != nil {
+				return
+			}
+			size := binary.LittleEndian.Uint32(hdr[:])
+			typ, tg := msgType(hdr[4]), binary.LittleEndian.Uint16(hdr[5:])
+			if atomic.LoadInt32(headerOnly) == 1 && typ == msgTfsync {
+				// announce the request before its body has been read
+				reqs <- [2]uint16{uint16(typ), tg}
+			}
+			body := make([]byte, size-7)
+			if _, err := io.ReadFull(sc, body); err != nil {
+				return
+			}
+			switch typ {
+			case msgTversion:
+				send(ulog.Null, sc, tag(tg), &rversion{MSize: binary.LittleEndian.Uint32(body), Version: "9P2000.L.Google.7"})
+			case msgTattach:
+				send(ulog.Null, sc, tag(tg), &rattach{})
+			default:
+				if atomic.LoadInt32(headerOnly) == 0 || typ != msgTfsync {
+					reqs <- [2]uint16{uint16(typ), tg}
+				}
+			}
+		}
+	}()
+	cl, err := NewClient(conn)
+	if err != nil {
+		t.Fatalf("C10 NewClient: %v", err)
+	}
+	f, err := cl.Attach("")
+	if err != nil {
+		t.Fatalf("C10 attach: %v", err)
+	}
+	return cl, f
+}
+
+func vh10Collect(res chan [2]string, n int) map[string]string {
+	out := map[string]string{}
+	for i := 0; i < n; i++ {
+		select {
+		case r := <-res:
+			out[r[0]] = r[1]
+		case <-time.After(6 * time.Second):
+		}
+	}
+	return out
+}
+
+// vh10Race: call B holds the token; call A registers, its Write is held; the header of a reply carrying A's
+// tag arrives (lookup succeeds, B blocks reading the body); A's send fails and A withdraws; the body arrives.
+// Then B's own reply arrives.  Model trace: see "trace".
+func vh10Race(t *testing.T, o *vhOut, id int) {
+	cc, sc := net.Pipe()
+	defer cc.Close()
+	defer sc.Close()
+	conn := &vh10Gate{Conn: cc, gate: make(chan struct{})}
+	reqs := make(chan [2]uint16, 16)
+	var ho int32
+	_, f := vh10Handshake(t, conn, sc, reqs, &ho)
+	res := make(chan [2]string, 2)
+	go func() { res <- [2]string{"B", vh10Guard(f.FSync)} }()
+	var tb uint16
+	select {
+	case r := <-reqs:
+		tb = r[1]
+	case <-time.After(5 * time.Second):
+		t.Fatalf("C10 race: B's request did not arrive")
+	}
+	atomic.StoreInt32(&conn.hold, 1)
+	go func() { res <- [2]string{"A", vh10Guard(f.FSync)} }()
+	time.Sleep(150 * time.Millisecond) // A: tag taken, pending registered, blocked in Write
+	ta := tb + 1                        // the pool hands out the next fresh tag (B's is outstanding)
+	frame := vhFrame(byte(msgRlerror), ta, vhLE32(5))
+	sc.SetWriteDeadline(time.Now().Add(3 * time.Second))
+	sc.Write(frame[:7]) // B: lookup(ta) accepts; B blocks on the body
+	time.Sleep(150 * time.Millisecond)
+	close(conn.gate) // A's send fails: A withdraws pending[ta]
+	time.Sleep(150 * time.Millisecond)
+	sc.Write(frame[7:]) // completion re-reads pending[ta]
+	time.Sleep(100 * time.Millisecond)
+	sc.SetWriteDeadline(time.Now().Add(3 * time.Second))
+	send(ulog.Null, sc, tag(tb), &rfsync{}) // B's own reply
+	got := vh10Collect(res, 2)
+	out := []string{"hang", "hang"}
+	if v, ok := got["A"]; ok {
+		out[0] = v
+	}
+	if v, ok := got["B"]; ok {
+		out[1] = v
+	}
+	// thread 0 = A (tag 1 in the model), thread 1 = B (tag 2)
+	o.Emit(map[string]interface{}{"kind": "trace", "sub": "reply-during-failed-send", "id": id, "n": 2, "outcomes": out,
+		"trace": []string{"AStart 1 2 1", "ASendOk 1", "AWaitToken 1", "AStart 0 1 0", "AFrame 1 1 true", "ASendFail 0", "ABody 1 true",
+			"AFrame 1 2 true", "ABody 1 true", "AWaitDone 1"}})
+}
+
+// vh10Early: call X holds the token; the server answers call B as soon as it has read the header of B's
+// request, i.e. while B is still inside send.  pending[t] is registered before send, so B gets its reply.
+func vh10Early(t *testing.T, o *vhOut, id int) {
+	cc, sc := net.Pipe()
+	defer cc.Close()
+	defer sc.Close()
+	conn := &vh10Gate{Conn: cc, gate: make(chan struct{})}
+	reqs := make(chan [2]uint16, 16)
+	var ho int32
+	_, f := vh10Handshake(t, conn, sc, reqs, &ho)
+	res := make(chan [2]string, 2)
+	go func() { res <- [2]string{"X", vh10Guard(func() error { _, err := f.Readlink(); return err })} }()
+	var tx uint16
+	select {
+	case r := <-reqs:
+		tx = r[1]
+	case <-time.After(5 * time.Second):
+		t.Fatalf("C10 early: X's request did not arrive")
+	}
+	atomic.StoreInt32(&ho, 1)
+	go func() { res <- [2]string{"B", vh10Guard(f.FSync)} }()
+	select {
+	case r := <-reqs: // header of B's Tfsync read, body (4 bytes) not yet
+		sc.SetWriteDeadline(time.Now().Add(3 * time.Second))
+		send(ulog.Null, sc, tag(r[1]), &rfsync{})
+	case <-time.After(5 * time.Second):
+		t.Fatalf("C10 early: B's header did not arrive")
+	}
+	time.Sleep(200 * time.Millisecond)
+	sc.SetWriteDeadline(time.Now().Add(3 * time.Second))
+	send(ulog.Null, sc, tag(tx), &rreadlink{Target: "x"})
+	got := vh10Collect(res, 2)
+	out := []string{"hang", "hang"}
+	if v, ok := got["X"]; ok {
+		out[0] = v
+	}
+	if v, ok := got["B"]; ok {
+		out[1] = v
+	}
+	o.Emit(map[string]interface{}{"kind": "trace", "sub": "reply-before-send-returns", "id": id, "n": 2, "outcomes": out,
+		"trace": []string{"AStart 0 1 0", "ASendOk 0", "AWaitToken 0", "AStart 1 2 1", "AFrame 0 2 true", "ABody 0 true", "ASendOk 1", "AWaitDone 1",
+			"AWaitToken 0", "AFrame 0 1 true", "ABody 0 true", "AWaitDone 0"}})
+}
+
+// ---- (e) fid discipline against a scripted server ----
+
+type vh10FidEv struct {
+	K   string `json:"k"` // ok refused lost clunk-ok clunk-fail
+	Fid uint64 `json:"fid"`
+}
+
+func vh10Fids(t *testing.T, o *vhOut, id int, script []string) {
+	cc, sc := net.Pipe()
+	defer cc.Close()
+	defer sc.Close()
+	type req struct {
+		typ  msgType
+		tg   uint16
+		body []byte
+	}
+	reqs := make(chan req, 16)
+	go func() {
+		for {
+			typ, tg, body, err := vhReadFrame(sc, 30*time.Second)
+			if err != nil {
+				return
+			}
+			switch msgType(typ) {
+			case msgTversion:
+				send(ulog.Null, sc, tag(tg), &rversion{MSize: binary.LittleEndian.Uint32(body), Version: "9P2000.L.Google.7"})
+			case msgTattach:
+				send(ulog.Null, sc, tag(tg), &rattach{})
+			default:
+				reqs <- req{msgType(typ), tg, body}
+			}
+		}
+	}()
+	cl, err := NewClient(cc)
+	if err != nil {
+		t.Fatalf("C10 fids NewClient: %v", err)
+	}
+	root, err := cl.Attach("")
+	if err != nil {
+		t.Fatalf("C10 fids attach: %v", err)
+	}
+	evs := []vh10FidEv{{K: "ok", Fid: uint64(root.(*clientFile).fid)}}
+	var files []File
+	for _, step := range script {
+		done := make(chan struct{})
+		var got File
+		switch step {
+		case "ok", "refused", "lost":
+			go func() { _, got, _ = root.Walk([]string{"a"}); close(done) }()
+			var r req
+			select {
+			case r = <-reqs:
+			case <-time.After(5 * time.Second):
+				t.Fatalf("C10 fids: no Twalk")
+			}
+			nf := uint64(binary.LittleEndian.Uint32(r.body[4:8]))
+			sc.SetWriteDeadline(time.Now().Add(3 * time.Second))
+			switch step {
+			case "ok":
+				send(ulog.Null, sc, tag(r.tg), &rwalk{QIDs: []QID{{}}})
+			case "refused":
+				send(ulog.Null, sc, tag(r.tg), &rlerror{Error: 2})
+			case "lost": // the server carried the walk out, but the client is sent a frame it cannot accept
+				send(ulog.Null, sc, tag(64000), &rfsync{})
+			}
+			<-done
+			evs = append(evs, vh10FidEv{K: step, Fid: nf})
+			if got != nil {
+				files = append(files, got)
+			}
+		case "clunk-ok", "clunk-fail":
+			if len(files) == 0 {
+				continue
+			}
+			f := files[len(files)-1]
+			files = files[:len(files)-1]
+			go func() { f.Close(); close(done) }()
+			r := <-reqs
+			sc.SetWriteDeadline(time.Now().Add(3 * time.Second))
+			if step == "clunk-ok" {
+				send(ulog.Null, sc, tag(r.tg), &rclunk{})
+			} else {
+				send(ulog.Null, sc, tag(r.tg), &rlerror{Error: 5})
+			}
+			<-done
+			evs = append(evs, vh10FidEv{K: step, Fid: uint64(f.(*clientFile).fid)})
+		}
+	}
+	o.Emit(map[string]interface{}{"kind": "fids", "id": id, "events": evs})
+}
+
 func vh10Perms(k int) [][]int {
 	if k == 0 {
 		return [][]int{{}}
@@ -426,6 +693,30 @@ func TestVerifC10(t *testing.T) {
 		// the same with a connection error instead: nothing may hang
 		vh10Session(t, o, id, 3, []vh10Phase{{Calls: []vh10Call{{I: 0}, {I: 1, Fail: true}}, Script: []vh10Item{{K: "close"}}},
 			{Calls: calls(2, 3), Script: []vh10Item{{K: "close"}}}}, "sendfail-close")
+		id++
+		// (d) forced schedules
+		vh10Race(t, o, id)
+		id++
+		vh10Early(t, o, id)
+		id++
+	}
+	// (e) fid discipline: fixed corpus, then random scripts
+	for _, sc := range [][]string{
+		{"lost", "ok", "ok"}, {"ok", "lost", "clunk-ok", "ok", "ok"}, {"refused", "ok", "lost", "refused", "ok"},
+		{"ok", "ok", "clunk-fail", "ok", "clunk-ok", "lost", "ok", "ok"}} {
+		vh10Fids(t, o, id, sc)
+		id++
+	}
+	nf := 6
+	if vhThorough() {
+		nf = 60
+	}
+	for i := 0; i < nf; i++ {
+		var sc []string
+		for k := 3 + r.Intn(8); k > 0; k-- {
+			sc = append(sc, []string{"ok", "ok", "refused", "lost", "clunk-ok", "clunk-fail"}[r.Intn(6)])
+		}
+		vh10Fids(t, o, id, sc)
 		id++
 	}
 }
